@@ -1,6 +1,7 @@
 """C15 - wrapper selection is honoured and the file lists match what was
 written."""
 import ast
+import re
 
 from sa import pyflow
 from sa import pattern as pat
@@ -521,6 +522,51 @@ def rule_x(repo, run):
     import_rules(run, R, c18, repo, {"C18.R2"}, only=lambda c: "wrap_functions" in c)
 
 
+def rule_r8(repo, run):
+    R = run.rule("C15.R8", "a declaration's wrap flags are read from its options *after* its own `options:` were merged in; the "
+                           "emitters descend into a child namespace on its wrap flag alone; `--option wrap_x=false` is a "
+                           "boolean (C14.R5)")
+    am = repo.module("ast")
+    n = 0
+    for q, fn in sorted(am.functions().items()):
+        flags = [a for a in ast.walk(fn) if isinstance(a, ast.Assign) and isinstance(a.value, ast.Call)
+                 and pyflow.is_name(a.value.func, "WrapFlags") and "self.options" in am.seg(a.value)
+                 and str(am.seg(a.targets[0])) == "self.wrap"]
+        merges = [c for c in ast.walk(fn) if isinstance(c, ast.Call) and str(am.seg(c.func)) == "self.options.update"]
+        if not flags or not merges:
+            continue
+        n += 1
+        run.check(R, "ast.%s:wrap-after-options" % q, max(c.lineno for c in merges) < min(a.lineno for a in flags),
+                  "self.wrap = WrapFlags(self.options) runs before the declaration's own `options:` are merged into "
+                  "self.options: `wrap_fortran: false` on a class is ignored for the class itself (the same option on a block "
+                  "around it works)", am.loc(flags[0]))
+    run.floor(R, "node constructors that merge options and compute wrap flags", n, 5)
+    k = 0
+    for mn, cname, flag in (("wrapc", "Wrapc", "c"), ("wrapf", "Wrapf", "fortran"), ("wrapp", "Wrapp", "python"), ("wrapl", "Wrapl", "lua")):
+        m = repo.module(mn)
+        try:
+            fn = m.func(cname + ".wrap_namespace")
+        except Exception:
+            continue
+        for lp in ast.walk(fn):
+            if not (isinstance(lp, ast.For) and isinstance(lp.target, ast.Name) and str(m.seg(lp.iter)).endswith(".namespaces")):
+                continue
+            child = lp.target.id
+            for c in ast.walk(lp):
+                if isinstance(c, ast.Call) and str(m.seg(c.func)) == "self.wrap_namespace":
+                    k += 1
+                    atoms = pyflow.path_atoms(c, stop=lp, seg=m.seg)
+                    content = sorted(t for t, p in atoms if re.search(r"\.(functions|classes|enums|variables|typedefs|namespaces)\b", t))
+                    run.check(R, "%s.%s.wrap_namespace:descend" % (mn, cname), not content,
+                              "the emitter only descends into a child namespace when %s: a namespace without free functions of "
+                              "its own still has classes and nested namespaces to wrap, and the other emitters write them"
+                              % content, m.loc(c))
+    run.floor(R, "recursive namespace descents", k, 3)
+    from checks import c14
+    from sa.report import import_rules
+    import_rules(run, R, c14, repo, {"C14.R5"}, only=lambda c: ":bool " in c)
+
+
 def run(repo, run, tier):
     P = Program(repo)
     rule_r1(repo, run)
@@ -530,5 +576,6 @@ def run(repo, run, tier):
     rule_r5(repo, run)
     rule_r6(repo, run)
     rule_x(repo, run)
+    rule_r8(repo, run)
     run.assumptions.append("the property's domain requests Fortran only together with C, so a test of the "
                            "Fortran flag is accepted as guard for switching the C flag on")
